@@ -545,7 +545,9 @@ def c01_monitor(s, a, rt):
         kv = dict(p.split("=", 1) for p in R if "=" in p)
         op = s.ops[i]
         sends_here = any(rt.act(int(l.split(" ")[3]), int(l.split(" ")[1]))[2] for l in entries if l.startswith("B "))
-        if op[0] == "send" and op[1] != 0 and not sends_here and prev_cur != "-":
+        # (event 0 is the name `__initial__`: sent by the *user* to a machine that holds a state it is an undeclared
+        # event like any other — the engine's own activation trigger is not an op of the history)
+        if op[0] == "send" and not sends_here and prev_cur != "-":
             out = "ok" if R[2] == "ok" else "err:" + R[3]
             var = sum(1 for o in s.ops[:i] if o[0] == "add_listener")
             mons.append(f"mon i={i} tid={kv['tid']} pre={tok_of_repr(prev_cur)} ev={op[1]} out={out} "
